@@ -88,9 +88,13 @@ func (ucr *UnsignedChunkReader) Read(p []byte) (int, error) {
 			break
 		}
 		rdr := io.TeeReader(ucr.reader, ucr.hasher)
-		payload := make([]byte, chunkSize)
-		// Read and cache the payload
-		_, err = io.ReadFull(rdr, payload)
+		// Read and cache the payload. The buffer grows with the bytes that
+		// actually arrive: the size announced on the wire is not trusted
+		// for an allocation.
+		payload, err := io.ReadAll(io.LimitReader(rdr, chunkSize))
+		if err == nil && int64(len(payload)) < chunkSize {
+			err = io.ErrUnexpectedEOF
+		}
 		if err != nil {
 			return 0, err
 		}
@@ -160,7 +164,7 @@ func (ucr *UnsignedChunkReader) extractChunkSize() (int64, error) {
 	line = strings.TrimSpace(line)
 
 	chunkSize, err := strconv.ParseInt(line, 16, 64)
-	if err != nil {
+	if err != nil || chunkSize < 0 {
 		return 0, errMalformedEncoding
 	}
 
